@@ -31,3 +31,13 @@ Theorem C19_commute_leaves : forall s p q lp lq tp tq v w,
   fst (m_set (fst (m_set s p (VAt v))) q (VAt w)) = fst (m_set (fst (m_set s q (VAt w))) p (VAt v)).
 Proof. exact set_leaves_commute. Qed.
 Print Assumptions C19_commute_leaves.
+
+(* law 3 at the top level: `rm k` followed by `set k` of the removed value succeeds and every key of the mapping
+   reads as before (the same attribute tree; the binding moves to the end, which is why the property does not say
+   "same text") — for every state satisfying the mapping invariant, every key and every value, nested sets included *)
+From E Require Import EditLaws EditMapSpec.
+Theorem C19_rm_then_set_same_tree : forall s k v, map_inv s -> getitem s SRoot k = Some v ->
+  snd (set_delitem s SRoot k) = Ok tt /\
+  forall k', getitem (set_setitem (fst (set_delitem s SRoot k)) SRoot k v) SRoot k' = getitem s SRoot k'.
+Proof. exact EditMapSpec.rm_then_set_same_tree. Qed.
+Print Assumptions C19_rm_then_set_same_tree.
